@@ -15,30 +15,36 @@ property refuted on them:
 namespace VgiVerif.C06.Findings
 open VgiVerif.Gen.Validate VgiVerif.C06
 
-/-- an `OverflowError`: an `Exception`, none of the listed classes -/
+/-- an `OverflowError`: an `Exception`, none of the classes any `except` clause lists -/
 def overflowError : Exn := ⟨"OverflowError".toList, [.Exception]⟩
+/-- `IPCError` as it was on the pinned tree: an `Exception` that no `except` clause named -/
+def pinnedIpcError : Exn := ⟨"IPCError".toList, [.Exception]⟩
 
 def tsRequest : Request := ⟨[⟨"a".toList, "timestamp[s]".toList, false, .unreadable overflowError⟩], 1, true⟩
+
+/-- the big `try` of the HTTP sites on the pinned tree, as seen by an exception that is an instance of none of the
+classes of its 400 tuple (`ArrowInvalid, TypeError, StopIteration, RpcError, VersionError`): that clause is skipped -/
+def pinnedHttpTry : List Handler := [⟨[], .status 400⟩, ⟨[.Exception], .status 500⟩]
+/-- `serve_one`'s `try` around `_read_request` on the pinned tree, seen the same way (`ArrowInvalid` / `VersionError, RpcError`) -/
+def pinnedPipeReadTry : List Handler := [⟨[], .streamReraise⟩, ⟨[], .streamReturn⟩]
 
 /-- pinned `_read_request` (no handler around `as_py()`): the conversion error is raised as it is … -/
 example : readRequestWith readValidationWrap [] tsRequest = .error (overflowError, .noPythonValue "a".toList) := by rfl
 /-- … escapes `serve_one` on the socket family (no reply is written) … -/
-example : (propagate overflowError (pipe_unary.chain .read)).1 = .escaped := by decide
+example : (propagate overflowError [pinnedPipeReadTry]).1 = .escaped := by decide
 /-- … and is answered as a server-side failure over HTTP -/
-example : (propagate overflowError (http_unary.chain .read)).1 = .http 200 true := by decide
+example : (propagate overflowError [pinnedHttpTry]).1 = .http 200 true := by decide
 /-- repaired: it is the framework's `RpcError`, i.e. 400 / error stream (`Aux.wire_read`) -/
 example : readRequest tsRequest = .error (rpcError, .noPythonValue "a".toList) := by rfl
 
 /-- pinned (no handler around the validating read): an invalid batch raises `IPCError`, which escapes / is a 200+marker -/
 example : readRequestWith [] readWrap ⟨[], 1, false⟩ = .error (ipcError, .invalidBatch) := by rfl
-example : (propagate ipcError (pipe_unary.chain .read)).1 = .escaped := by decide
-example : (propagate ipcError (http_init.chain .read)).1 = .http 200 true := by decide
+example : (propagate pinnedIpcError [pinnedPipeReadTry]).1 = .escaped := by decide
+example : (propagate pinnedIpcError [pinnedHttpTry]).1 = .http 200 true := by decide
 
 /-- the `try` chain of the deserialise step at the HTTP sites as it was on the pinned tree: the inner handler listed
 `(KeyError, ValueError)` — classes an `OverflowError` is not an instance of, so that level is skipped -/
-def pinnedDeserChain : List (List Handler) :=
-  [[⟨[], .rewrapTypeError⟩],
-   [⟨[.ArrowInvalid, .TypeError, .StopIteration, .RpcError, .VersionError], .status 400⟩, ⟨[.Exception], .status 500⟩]]
+def pinnedDeserChain : List (List Handler) := [[⟨[], .rewrapTypeError⟩], pinnedHttpTry]
 
 example : (propagate overflowError pinnedDeserChain).1 = .http 200 true := by decide
 /-- repaired chain: 400 -/
